@@ -146,8 +146,17 @@ def execute(scn):
                 freed.add(m['old'])
             elif m['op'] == 'DeleteModel':
                 freed.add(m['model'])
+    homonym = False
+    blob = json.dumps([sts[0], sts[-1], P['apps']['va']['steps']])
+    for evo in P['apps']['va']['steps'][0]['evos']:
+        for m in evo['mutations']:
+            if m['op'] == 'RenameModel':
+                for other in sts[0]['apps']:
+                    if other != 'va' and '"to": "%s.%s"' % (
+                            other, m['old']) in blob:
+                        homonym = True
     detail = dict(kind=scn['kind'], ops=tags, ops_str=' '.join(tags),
-                  model_name_reuse=reuse)
+                  model_name_reuse=reuse, renamed_name_in_other_app=homonym)
     with runner.Workspace() as ws:
         r0 = common.install(ws, P, sts, 0, scn['rows'])
         if getattr(r0, 'rows_rejected', None) or r0.status != 'ok':
